@@ -31,6 +31,7 @@ def check(chk):
     _hermitian(chk)
     _model_conj(chk)
     _guard(chk)
+    _stage_order(chk)
     pm = chk.pm
     cp = pm.cls("xeofs.cross.cpcca.CPCCA")
     fns = [m for c in (cp, pm.cls("ComplexCPCCA"), pm.cls("HilbertCPCCA"), pm.cls("BaseModelCrossSet")) for m in c.methods.values() if m.name != "__init__"]
@@ -39,6 +40,43 @@ def check(chk):
     chk.floor("CONJ.herm", 8)
     chk.floor("CONJ.model", 6)
     chk.floor("INDEX", 60)
+
+
+def _stage_order(chk):
+    """the cross-covariance that is decomposed is that of the fractionally whitened AUGMENTED data: in the shared fit,
+    per field, preprocessing -> PCA -> augmentation (Hilbert transform in the Hilbert models) -> whitening -> algorithm.
+    A whitener fitted before the augmentation is computed from the covariance of the real data, not of the complex data
+    it is then applied to."""
+    pm = chk.pm
+    fit = pm.own_method("xeofs.cross.base_model_cross_set.BaseModelCrossSet", "fit")
+    ff = FuncFacts.of(fit)
+
+    def calls(pred):
+        return [c for c in ff.calls() if pred(c)]
+
+    aug = calls(lambda c: is_self_attr(c.func, "_augment_data"))
+    alg = calls(lambda c: is_self_attr(c.func, "_fit_algorithm"))
+    chk.require(len(aug) == 1 and len(alg) == 1, "BaseModelCrossSet.fit: augmentation / algorithm call vanished")
+    an, gn = ff.cfg.node_for(aug[0]), ff.cfg.node_for(alg[0])
+    for i in ("1", "2"):
+        stages = {}
+        for nm in ("preprocessor", "pca", "whitener"):
+            cs = calls(lambda c, nm=nm: isinstance(c.func, ast.Attribute) and c.func.attr == "fit_transform" and is_self_attr(c.func.value, nm + i))
+            chk.require(len(cs) == 1, f"BaseModelCrossSet.fit: {nm}{i}.fit_transform vanished")
+            stages[nm] = cs[0]
+        order = [("preprocessor" + i, ff.cfg.node_for(stages["preprocessor"])), ("pca" + i, ff.cfg.node_for(stages["pca"])), ("_augment_data", an),
+                 ("whitener" + i, ff.cfg.node_for(stages["whitener"])), ("_fit_algorithm", gn)]
+        bad = [(a, b) for (a, na), (b, nb) in zip(order, order[1:]) if not (na != nb and ff.cfg.dominates(na, nb))]
+        # and the whitener is fed with what the augmentation returned
+        w = stages["whitener"]
+        fed = False
+        if w.args and isinstance(w.args[0], ast.Name):
+            ds = ff.rd.reaching(w.args[0].id, ff.cfg.node_for(w))
+            fed = bool(ds) and all(d.stmt is not None and any(x is aug[0] for x in ast.walk(d.stmt)) for d in ds)
+        chk.check(not bad and fed, "STAGE.fit_order", fit, stages["whitener"], construct=f"field {i}: preprocess -> PCA -> augment -> whiten -> algorithm",
+                  why=(f"stage order broken at {bad}" if bad else f"whitener{i} is not fitted on the output of the augmentation") +
+                      ": the whitening matrix is then not the fractional power of the covariance of the data that is decomposed, "
+                      "so the singular values are not those of the alpha-whitened cross-covariance (Hilbert models with alpha < 1)")
 
 
 def _matmul_divisions(fn: FuncInfo):
